@@ -96,7 +96,11 @@ class DictDecoder:
         if not data:
             raise ParserError("Document is empty, can not detect type")
 
-        keys = data[0].keys() if isinstance(data, list) else data.keys()
+        first = data[0] if isinstance(data, list) else data
+        if not isinstance(first, dict):
+            raise ParserError("Document is not an object, can not detect type")
+
+        keys = first.keys()
         clazz: type[T] | None = self.context.find_type_by_fields(set(keys))
 
         if clazz:
@@ -114,6 +118,12 @@ class DictDecoder:
         Returns:
             An instance of the class type representing the parsed content.
         """
+        if not isinstance(data, dict):
+            raise ParserError(
+                f"Expected an object for `{clazz.__qualname__}`, "
+                f"got `{type(data).__name__}`"
+            )
+
         if set(data.keys()) == self.context.class_type.derived_keys:
             return self.bind_derived_dataclass(data, clazz)
 
